@@ -127,7 +127,7 @@ def main():
     from harness.lie import prelude as _prelude
     _prelude(run, report=())
     from harness import history as _history      # engine H: call histories in fresh interpreters (spec/LieHistory.tla)
-    if _history.hook(run, tier, {"log"}):
+    if _history.hook(run, tier, {"log", "log_after_extend"}):
         return run.finish()
     if "--replay" in sys.argv:
         d = json.load(open(sys.argv[sys.argv.index("--replay") + 1]))
